@@ -558,7 +558,9 @@ fn gen_base(rng: &mut Rng, usage: &mut BTreeMap<String, u64>, gid: usize) -> (Pr
         preds.dedup();
         // a tap behind the normalising map of a compound operator (join, zip, enumerate, cross_singleton) observes
         // that operator: list it first
-        if let Some(pos) = between.iter().position(|(n, _)| prog.nodes[x].ins.iter().any(|(s, _)| prog.nodes[*s].name == *n && prog.nodes[*s].ty != IT)) {
+        if prog.nodes[x].kind != "map" {
+            // only a normalising map stands for the compound operator in front of it
+        } else if let Some(pos) = between.iter().position(|(n, _)| prog.nodes[x].ins.iter().any(|(s, _)| prog.nodes[*s].name == *n && prog.nodes[*s].ty != IT)) {
             let raw = between.remove(pos);
             between.insert(0, raw);
         }
